@@ -444,6 +444,9 @@ def judge(env, cid, src, rec, mrec, wf, out, release=False):
         if "memory allocation of" in msg:
             out["resource_exhaustion"] = out.get("resource_exhaustion", 0) + 1
             crashed = []
+            # those configurations are not compared with the model either
+            rec = dict(rec)
+            rec["runs"] = {c: r for c, r in rec["runs"].items() if not r[0].startswith("crash")}
     if crashed:
         cfg, text = crashed[0]
         native = text.startswith("crash") or text.startswith("timeout")
